@@ -166,6 +166,9 @@ type Walker struct {
 	P           *Prog
 	MaxDepth    int
 	exprDepth   int
+	closures    map[types.Object]*ast.FuncLit // local variables bound once to a function literal
+	closureOff  map[types.Object]bool         // … and then reassigned: not resolved
+	closureDep  int
 	MaxPaths    int
 	Inline      func(caller, callee *FuncInfo) bool
 	Unsupported map[string]string // function name -> reason
@@ -645,6 +648,24 @@ func (w *Walker) assignExprs(lhs, rhs []ast.Expr, tok token.Token, node ast.Node
 		w.unsupported(c.fn, "assignment arity", node.Pos())
 		k(st)
 		return
+	}
+	for i, r := range rhs {
+		if id, ok := lhs[i].(*ast.Ident); ok {
+			obj := c.info.Defs[id]
+			if obj == nil {
+				obj = c.info.Uses[id]
+			}
+			if obj != nil {
+				if w.closures == nil {
+					w.closures, w.closureOff = map[types.Object]*ast.FuncLit{}, map[types.Object]bool{}
+				}
+				if fl, isLit := ast.Unparen(r).(*ast.FuncLit); isLit && c.info.Defs[id] != nil {
+					w.closures[obj] = fl
+				} else if _, had := w.closures[obj]; had {
+					w.closureOff[obj] = true
+				}
+			}
+		}
 	}
 	vals := make([]string, len(rhs))
 	cs := make([]*types.Const, len(rhs))
@@ -1643,6 +1664,61 @@ func (w *Walker) call(call *ast.CallExpr, st *pstate, c *ctl, k func(*pstate, []
 	var target *FuncInfo
 	if callee != nil {
 		target = w.P.Funcs[callee]
+	}
+	// a call of a local closure (`fail := func(…) … { … }; return fail(a, b)`): its body runs here, with the
+	// arguments bound; the free variables are this function's own
+	if callee == nil && w.closureDep < 3 {
+		if id, ok := ast.Unparen(call.Fun).(*ast.Ident); ok {
+			if obj := c.info.Uses[id]; obj != nil && w.closures[obj] != nil && !w.closureOff[obj] {
+				fl := w.closures[obj]
+				if fl.Pos() >= c.fn.Decl.Pos() && fl.End() <= c.fn.Decl.End() {
+					ev := w.callEvent(call, st, c)
+					ev.Inlined = true
+					st = w.emit(st, ev)
+					ok := true
+					i := 0
+					for _, f := range fl.Type.Params.List {
+						if _, variadic := f.Type.(*ast.Ellipsis); variadic {
+							ok = false
+						}
+						for _, n := range f.Names {
+							if o := c.info.Defs[n]; o != nil && i < len(call.Args) {
+								st.env[o] = w.canon(call.Args[i], st, c)
+								if k := w.constOf(call.Args[i], st, c); k != nil {
+									st.consts[o] = k
+								} else {
+									delete(st.consts, o)
+								}
+							}
+							i++
+						}
+						if len(f.Names) == 0 {
+							i++
+						}
+					}
+					if ok {
+						cc := &ctl{fn: c.fn, info: c.info}
+						cc.named = namedResults(fl.Type, c.info)
+						for _, o := range cc.named {
+							st.env[o] = "zero(" + w.typeStr(o.Type()) + ")"
+						}
+						loopDepth := len(st.loops)
+						cc.ret = func(s *pstate, res []string) {
+							if len(s.loops) > loopDepth {
+								s.loops = s.loops[:loopDepth]
+							}
+							w.closureDep--
+							k(s, res)
+							w.closureDep++
+						}
+						w.closureDep++
+						w.stmts(fl.Body.List, st, cc, func(s *pstate) { cc.ret(s, w.namedVals(cc, s)) })
+						w.closureDep--
+						return
+					}
+				}
+			}
+		}
 	}
 	inline := target != nil && len(st.stack) <= w.MaxDepth && w.Inline(c.fn, target)
 	if inline {
